@@ -51,16 +51,16 @@ type recViolation struct {
 // recorder collects what a child stage observed.
 type recorder struct {
 	mu       sync.Mutex
-	Evals    int64            `json:"evals"`
-	Dist     []string         `json:"distinct"`
+	Evals    int64    `json:"evals"`
+	Dist     []string `json:"distinct"`
 	distSeen map[string]bool
 	Counts   map[string]int64 `json:"counts"`
 	Maxes    map[string]int64 `json:"maxes"`
 	Viols    []recViolation   `json:"violations"`
 	violN    map[string]int
-	Samples  []interface{}    `json:"samples"`
-	Inconcl  []string         `json:"inconclusive"`
-	HErrs    []string         `json:"harness_errors"`
+	Samples  []interface{} `json:"samples"`
+	Inconcl  []string      `json:"inconclusive"`
+	HErrs    []string      `json:"harness_errors"`
 }
 
 func newRecorder() *recorder {
